@@ -696,6 +696,234 @@ def replay_driver(loadable, rank, vals):
         symx.Ctx.cur = ctxsave
 
 
+# ----------------------------------------------------------------------------- (d) constants file: key order and expressions
+CONST_FILES = {
+    # name -> list of (key, numeric root or expression string); roots become symbolic reals
+    'chain3': [('deltaRTi', None), ('deltaRTe', 'deltaRTi'), ('deltaRN0', '2.0*deltaRTe'), ('deltaR', '4.0*deltaRN0/deltaRTi'), ('vMax', None), ('vMin', '-vMax')],
+    'mixed': [('R0', None), ('zMax', 'R0*2*pi'), ('kTi', None), ('kTe', 'kTi'), ('CTi', None), ('CTe', '(CTi+kTe)*2')],
+    'chain4': [('B0', None), ('eps', 'B0/4'), ('eps0', 'eps-1'), ('kN0', 'eps0*eps0'), ('dt', None)],
+}
+
+
+def _tokens(expr):
+    import re
+    return set(re.split(r'[+*/\-()]', expr.replace(' ', '')))
+
+
+def constants_item(item):
+    """real get_constants / eval_expr on a stubbed json.load: the numeric roots are symbolic reals, the ORDER in which the
+    entries are consumed is chosen by the solver (one path per feasible order), expressions are evaluated by the real
+    eval_expr (str(value) of a proxy is a registered identifier, so the real string substitution + eval run unchanged).
+    z3 decides, per order, that every constant of the file has the value of its expression over the roots and that
+    constants absent from the file have their library defaults."""
+    import math
+    fname, canary = item
+    res = H.worker_result()
+    cmod = H.repo_import('pygyro.initialisation.constants')
+    dmod = H.repo_import('pygyro.initialisation.default_constants')
+    t0 = _time.time()
+    if canary:
+        from checks.c07 import apply_canary
+        apply_canary(dict(cmod=cmod), canary)
+    entries = CONST_FILES[fname]
+    keys = [k for k, _ in entries]
+    n = len(entries)
+    reg = {}
+    old_str = symx.SNum.__str__
+
+    def naming_str(self):
+        name = 'symv%d' % len(reg)
+        reg[name] = self
+        setattr(cmod, name, self)
+        return name
+    st = {}
+
+    class FakeJson:
+        @staticmethod
+        def load(f):
+            return st['data']
+
+    def body(ctx):
+        roots = {}
+        vals = {}
+        for k, e in entries:
+            if e is None:
+                v = z3.Real('c_' + k)
+                ctx.assume(z3.And(v >= 1, v <= 9))
+                roots[k] = symx.SReal(v)
+        # consumption order = order of popitem() = reverse of the insertion order of the dict that json.load returns
+        perm = []
+        for i in range(n):
+            pv = z3.Int('ord%d' % i)
+            ctx.assume(z3.And(pv >= 0, pv < n))
+            for q in perm:
+                ctx.assume(pv != q[0])
+            perm.append((pv, int(symx.SInt(pv))))
+        order = [keys[j] for _, j in perm]
+        data = {}
+        for k in reversed(order):
+            e = dict(entries)[k]
+            data[k] = roots[k] if e is None else e
+        st['data'] = data
+        st['order'] = order
+        consts = cmod.get_constants('constants.json')
+        return roots, consts
+
+    import builtins
+    saved_open = cmod.__dict__.get('open', None)
+
+    class FakeFile:
+        def __enter__(self): return self
+        def __exit__(self, *a): return False
+
+    class FakeIntegrate:
+        # scipy.integrate.quad (only used for the normalisation constant CN0, which is not part of the claim): any value
+        @staticmethod
+        def quad(*a, **k):
+            return (2.0, 0.0)
+
+    real_integrate = cmod.integrate
+    import json as _json
+
+    def patch():
+        cmod.open = lambda *a, **k: FakeFile()
+        cmod.json = FakeJson
+        cmod.integrate = FakeIntegrate
+        symx.SNum.__str__ = naming_str
+        symx.SNum.__repr__ = naming_str
+
+    def unpatch():
+        symx.SNum.__str__ = old_str
+        symx.SNum.__repr__ = old_str
+        cmod.json = _json
+        cmod.integrate = real_integrate
+        if 'open' in vars(cmod):
+            del cmod.open
+
+    def replay(order):
+        unpatch()
+        try:
+            return replay_constants(fname, order, canary)
+        finally:
+            patch()
+    patch()
+    env = dict(pi=symx.K(symx.rationalise(math.pi)))
+    try:
+        for ctx, (kind, val) in symx.explore(body, timeout_ms=20000, index_cap=16, maxpaths=1000):
+            if len(res['violations']) >= 3:
+                break               # a few confirmed witnesses are enough; the remaining orders are not walked
+            if kind == 'abort':
+                if val.inconclusive:
+                    res['inconclusive'].append('constants abort %s %s' % (val.why, fname))
+                continue
+            res['obligations'] += 1
+            order = st.get('order')
+            if kind == 'exc':
+                prob = replay(order)
+                if prob:
+                    res['violations'].append(('constants:exception', '%s: %s / %s' % (type(val).__name__, str(val)[:100], prob), dict(kind='constants', file=fname, order=order)))
+                else:
+                    res['inconclusive'].append('constants: exception on the model only %r (%s, order %s)' % (val, fname, order))
+                continue
+            roots, consts = val
+            exp = {}
+
+            def value_of(k):
+                if k in exp:
+                    return exp[k]
+                e = dict(entries)[k]
+                if e is None:
+                    exp[k] = roots[k]
+                else:
+                    names = {kk: value_of(kk) for kk in keys if kk != k and kk in _tokens(e)}
+                    exp[k] = eval(e, dict(env), names)
+                return exp[k]
+            bad, where = [], []
+            for k in keys:
+                got = getattr(consts, k)
+                want = value_of(k)
+                if not isinstance(got, symx.SNum):
+                    bad.append(z3.BoolVal(True))
+                else:
+                    bad.append(symx.toreal(symx.zt(got)) != symx.toreal(symx.zt(symx.K(want) if not isinstance(want, symx.SNum) else want)))
+                where.append(k)
+            for k, dv in dmod.defaults.items():
+                if k not in keys and getattr(consts, k) != dv:
+                    bad.append(z3.BoolVal(True))
+                    where.append('default ' + k)
+            r_ = ctx.check(z3.Or(bad))
+            if r_ == 'unsat':
+                res['discharged'] += 1
+                res['nontrivial'].append('constants|%s|%s' % (fname, ','.join(order)))
+            elif r_ == 'sat':
+                mdl = ctx.model()
+                hits = [w for w, b in zip(where, bad) if z3.is_true(mdl.eval(b, model_completion=True))]
+                prob = replay(order)
+                rep = dict(kind='constants', file=fname, order=order, constants=hits, concrete=prob, canary=bool(canary))
+                if prob:
+                    res['violations'].append(('constants:order', '%s (file %s, keys consumed in the order %s)' % (prob, fname, order), rep))
+                else:
+                    res['inconclusive'].append('constants model does not reproduce: %r' % rep)
+            else:
+                res['inconclusive'].append('unknown constants query %s' % fname)
+    finally:
+        unpatch()
+        for name in reg:
+            if hasattr(cmod, name):
+                delattr(cmod, name)
+    if canary:
+        from checks.c07 import undo_canary
+        undo_canary(None)
+    res['stats'] = symx.GLOBAL.as_dict()
+    symx.GLOBAL.__init__()
+    res['wall'] = round(_time.time() - t0, 2)
+    res['canary'] = canary[0] if canary else None
+    return res
+
+
+def replay_constants(fname, order, canary):
+    """the real get_constants on a real file whose keys are written so that they are consumed in `order`"""
+    import math
+    import os
+    import tempfile
+    cmod = H.repo_import('pygyro.initialisation.constants')
+    entries = dict(CONST_FILES[fname])
+    rootvals = {}
+    for i, (k, e) in enumerate(CONST_FILES[fname]):
+        if e is None:
+            rootvals[k] = 1.5 + 0.75 * i
+    if not order:
+        order = [k for k, _ in CONST_FILES[fname]]
+    text = '{' + ', '.join('"%s": %s' % (k, json.dumps(rootvals[k] if entries[k] is None else entries[k])) for k in reversed(order)) + '}'
+    fd, path = tempfile.mkstemp(suffix='.json')
+    try:
+        with os.fdopen(fd, 'w') as f:
+            f.write(text)
+        try:
+            consts = cmod.get_constants(path)
+        except Exception as e:
+            return 'get_constants raised %s: %s for %s' % (type(e).__name__, e, text)
+        exp = dict(rootvals)
+
+        def value_of(k):
+            if k not in exp:
+                e = entries[k]
+                exp[k] = eval(e, dict(pi=math.pi), {kk: value_of(kk) for kk in entries if kk != k and kk in _tokens(e)})
+            return exp[k]
+        for k in entries:
+            got, want = getattr(consts, k), value_of(k)
+            if got is None or abs(got - want) > 1e-12 * max(1.0, abs(want)):
+                return 'constant %s = %r after loading %s, its expression gives %r' % (k, got, text, want)
+    finally:
+        os.remove(path)
+    return None
+
+
+CONST_CANARY = ('unresolved references fall back to the library default', 'cmod',
+                [("            if (val is not None):\n                f[i] = str(val)\n            else:\n                return None\n",
+                  "            if (val is None and el in defaults):\n                val = defaults[el]\n            if (val is not None):\n                f[i] = str(val)\n            else:\n                return None\n")])
+
+
 def main():
     run = H.Run(PID, 'proof')
     real, lay = LS.modules()
@@ -724,11 +952,24 @@ def main():
     ditems = [(ld, rk, K, sv) for ld in (False, True) for rk in (0, 1) for sv in range(1, SMAX + 1)]
     for r in H.pmap(driver_item, ditems, run.args.jobs):
         run.merge(r)
+    citems = [('chain3', None), ('mixed', None)] + ([] if quick else [('chain4', None)])
+    caught = {}
+    for r in H.pmap(constants_item, citems + [('chain3', CONST_CANARY)], run.args.jobs):
+        if r.get('canary'):
+            run.add_stats(r.get('stats', {}))
+            caught[r['canary']] = bool(r['violations'])
+            continue
+        run.merge(r)
+    hit = caught.get(CONST_CANARY[0], False)
+    run.canaries.append(dict(name=CONST_CANARY[0], detected=hit))
+    if not hit:
+        run.canary_miss(CONST_CANARY[0], caught)
+    run.sections['constants_files'] = [c[0] for c in citems]
     run.stubs = LS.stubs() + ['glob -> symbolic file names produced by the writer\'s own format expression; str ordering by a digit-variable model',
                               'fullSimulation: every pygyro class, argparse, time.time (arbitrary non-decreasing clock), os.path/os.mkdir, open/print replaced by recording stubs']
     run.bounds = dict(tiling='all extents, 1..%d writer and reader processes per dimension' % P, selection='2 (thorough 3) checkpoints, times < 10^%d' % MAXD,
                       driver='saveStep <= %d, <= %d iterations, start time <= 8, dt = 2, both fresh and restarted runs, ranks 0 and 1' % (SMAX, K))
-    run.outside = ['bit-exact HDF5 I/O and the h5py layer (C library, not MPI-enabled in this image)', 'constants printer / parser round trip',
+    run.outside = ['bit-exact HDF5 I/O and the h5py layer (C library, not MPI-enabled in this image)', 'the printer of the saved parameter file (Constants.__str__) and the text-level JSON round trip of floats; an explicit rp entry (rp is derived from rMin/rMax by the setters)',
                    'non-integer time steps (file names such as grid_0002.5.h5)', 'state equality of split runs beyond control flow: follows from identical per-iteration operator sequences, '
                    'resumption at the checkpointed time and bit-exact I/O (the latter not decided)']
     run.assumptions = ['checkpoint names are produced by Grid.writeH5Dataset\'s format expression', 'dt = 2 (integer) in the driver runs']
